@@ -1,10 +1,13 @@
 package checks
 
 import (
+	"context"
 	"encoding/json"
 	"errors"
 	"fmt"
+	"io"
 	"math"
+	"os"
 	"reflect"
 	"runtime/debug"
 	"sort"
@@ -1187,6 +1190,12 @@ func c17Enumerate(thorough bool, f func(s c17Sig)) {
 			f(c17Sig{Group: "shadow", Extra: fmt.Sprintf("%d/%d", ns, mask)})
 		}
 	}
+	// 9. error results: whatever error value a Go function returns, the run ends with it
+	for ei := range c17ErrValues {
+		for ci := range c17ErrContexts {
+			f(c17Sig{Group: "errident", Extra: fmt.Sprintf("%d/%d", ei, ci)})
+		}
+	}
 	// 7. non-function values
 	nf := []string{"int", "string", "float", "struct", "bytes", "map", "pointer", "pointer-to-func", "nil", "typed-nil-func"}
 	sort.Strings(nf)
@@ -1211,6 +1220,59 @@ func c17Dispatch(c *core.Ctx, r *c17Runner, s c17Sig) {
 		c17CheckNonFunc(c, r, s)
 	case "shadow":
 		c17CheckShadow(c, r, s)
+	case "errident":
+		c17CheckErrIdent(c, r, s)
+	}
+}
+
+// error values a Go function may return (some are sentinels the interpreter
+// itself uses internally for end of input, exit, cancellation)
+var c17ErrValues = []error{errors.New("custom failure"), io.EOF, io.ErrUnexpectedEOF, context.Canceled, os.ErrNotExist, fmt.Errorf("wrapped: %w", io.EOF)}
+
+// where the failing call is made
+var c17ErrContexts = []struct {
+	name, src string
+	never     []string // observations that can only be made if the run went on after the error
+}{
+	{"BEGIN", `BEGIN { obs("b"); fail(); obs("after") } { obs("r") } END { obs("e") }`, []string{"after", "r", "e"}},
+	{"action", `{ obs("r" NR); if (NR == 2) fail(); obs("after" NR) } END { obs("e") }`, []string{"after2", "r3", "after3", "e"}},
+	{"pattern", `NR == 2 && fail() { obs("m") } { obs("r" NR) } END { obs("e") }`, []string{"m", "r2", "r3", "e"}},
+	{"function", `function f(n) { if (n == 0) return fail(); return f(n - 1) } { obs("r" NR); f(3); obs("after") } END { obs("e") }`, []string{"after", "r2", "r3", "e"}},
+	{"END", `{ obs("r" NR) } END { obs("e"); fail(); obs("after") }`, []string{"after"}},
+	{"getline-loop", `BEGIN { while ((getline l) > 0) { obs("g" l); if (l == "2") fail() } obs("after") } END { obs("e") }`, []string{"g3", "after", "e"}},
+}
+
+func c17CheckErrIdent(c *core.Ctx, r *c17Runner, s c17Sig) {
+	var ei, ci int
+	fmt.Sscanf(s.Extra, "%d/%d", &ei, &ci)
+	want := c17ErrValues[ei]
+	ctxt := c17ErrContexts[ci]
+	var got []string
+	funcs := map[string]any{
+		"obs":  func(v string) { got = append(got, v) },
+		"fail": func() (int, error) { return 1, want },
+	}
+	c.Announce(s)
+	prog := awk.MustParse(ctxt.src, funcs)
+	res := awk.Exec(prog, &interp.Config{Funcs: funcs, Stdin: strings.NewReader("1\n2\n3\n")})
+	c.Eval(1)
+	c.Add("transitions", 1)
+	c.Outcome(fmt.Sprintf("errident %s %v %v", ctxt.name, res.Err, got))
+	for _, g := range got {
+		for _, nv := range ctxt.never {
+			if g == nv {
+				r.fail(c, "error-result-did-not-abort-the-run_ctx="+ctxt.name, s, fmt.Sprintf("error %q returned by the Go function; the program went on: %q; run result: %v", want, got, res.Err))
+				return
+			}
+		}
+	}
+	switch {
+	case res.Panic != "":
+		r.fail(c, "error-result-panic_ctx="+ctxt.name, s, firstLine(res.Panic))
+	case res.Err == nil:
+		r.fail(c, "error-result-lost_ctx="+ctxt.name, s, fmt.Sprintf("error %q returned by the Go function; run returned nil; trace %q", want, got))
+	case !errors.Is(res.Err, want) && !strings.Contains(res.Err.Error(), want.Error()):
+		r.fail(c, "error-result-replaced_ctx="+ctxt.name, s, fmt.Sprintf("want %q, run returned %q", want, res.Err))
 	}
 }
 
